@@ -706,7 +706,15 @@ fn structured(ctx: &Ctx, idx: usize, id: String, hostile: bool) -> Case {
             };
             let kind = nbs[i].kind;
             if kind == Kind::Read {
-                g.c.step(format!("blk complete_read tok={} len={}", tok, nbs[i].buf.len()), format!("res={} buf={}", res_name(&r), canon_bytes(&nbs[i].buf)));
+                // on a platform that shares in place the device's bytes are in the caller's buffer as
+                // soon as the device wrote them: its contents are unspecified until the completion
+                // has been consumed
+                let ip = hal::with(|h| h.inplace);
+                let unspecified = ip && matches!(r, Err(Error::WrongToken) | Err(Error::NotReady));
+                g.c.step(
+                    format!("blk complete_read tok={} len={}{}", tok, nbs[i].buf.len(), if ip { " ip=1" } else { "" }),
+                    format!("res={} buf={}", res_name(&r), if unspecified { "-".to_string() } else { canon_bytes(&nbs[i].buf) }),
+                );
             } else {
                 g.c.step(format!("blk complete_write tok={}", tok), format!("res={}", res_name(&r)));
             }
